@@ -155,7 +155,10 @@ BytesOfSlice(S, sl) == [i \in 1..sl.len |-> S.heap[sl.id].elems[sl.off + i].v]
 \* ---------------------------------------------------------------- function entry
 \* args oldest first; a variadic callee gets its surplus arguments packed into a fresh slice unless the
 \* call site spreads a slice (then that slice is passed through unchanged)
-EnterCall(S, fname, args, spread, line, rest) ==
+\* want = number of results the call site asks for (-1: exactly what the callee declares).  A wrong number
+\* of arguments is an error before the callee runs; asking for more results than the callee yields is an
+\* error when it returns (see "callend" / "doreturn")
+EnterCallW(S, fname, args, spread, line, rest, want) ==
     LET f == Fn(fname)
         np == Len(f.params)
         pack == f.variadic /\ ~spread
@@ -173,7 +176,9 @@ EnterCall(S, fname, args, spread, line, rest) ==
                       !.scopes = <<DeclareAll(<<EmptyScope>>, f.params, args2)[1]>>,
                       !.ctl = StmtItems(f.body) \o
                               <<[k |-> "callend", scopes |-> S.scopes, nres |-> f.nres, fn |-> fname, caller |-> callerFn,
-                                 line |-> line, vbase |-> Len(S.vals)]>> \o rest]
+                                 line |-> line, vbase |-> Len(S.vals), want |-> want]>> \o rest]
+
+EnterCall(S, fname, args, spread, line, rest) == EnterCallW(S, fname, args, spread, line, rest, -1)
 
 \* ---------------------------------------------------------------- expressions
 \* scheduling of an expression node: what is evaluated first, and the item that combines the operands
@@ -190,7 +195,7 @@ EvalExpr(S, n, rest) ==
       [] e.k = "or"    -> [S EXCEPT !.ctl = <<ExprI(e.l), [k |-> "orr", r |-> e.r]>> \o rest]
       [] e.k \in {"not", "neg", "compl", "len"} -> [S EXCEPT !.ctl = <<ExprI(e.x), [k |-> e.k]>> \o rest]
       [] e.k = "conv"  -> [S EXCEPT !.ctl = <<ExprI(e.x), [k |-> "conv", to |-> e.to]>> \o rest]
-      [] e.k = "call"  -> [S EXCEPT !.ctl = ExprItems(e.args) \o <<[k |-> "docall", fn |-> e.fn, nargs |-> Len(e.args), spread |-> e.spread, line |-> e.line]>> \o rest]
+      [] e.k = "call"  -> [S EXCEPT !.ctl = ExprItems(e.args) \o <<[k |-> "docall", fn |-> e.fn, nargs |-> Len(e.args), spread |-> e.spread, line |-> e.line, want |-> e.want]>> \o rest]
       [] e.k = "callv" -> [S EXCEPT !.ctl = <<ExprI(e.f)>> \o ExprItems(e.args) \o <<[k |-> "docallv", nargs |-> Len(e.args), spread |-> e.spread, line |-> e.line]>> \o rest]
       [] e.k = "mcall" -> [S EXCEPT !.ctl = <<ExprI(e.x)>> \o ExprItems(e.args) \o <<[k |-> "domcall", m |-> e.m, sty |-> e.sty, nargs |-> Len(e.args), spread |-> e.spread, line |-> e.line]>> \o rest]
       [] e.k = "mval"  -> [S EXCEPT !.ctl = <<ExprI(e.x), [k |-> "domval", m |-> e.m, line |-> e.line]>> \o rest]
@@ -325,8 +330,8 @@ Steps(S) ==
     IN
     CASE it.k = "start" ->
             Ret([S EXCEPT !.ctl = StmtItems(Progs[p].globals) \o
-                     [i \in DOMAIN Progs[p].inits |-> [k |-> "docall", fn |-> Progs[p].inits[i], nargs |-> 0, spread |-> FALSE, line |-> 0]] \o
-                     <<[k |-> "docall", fn |-> Progs[p].main, nargs |-> 0, spread |-> FALSE, line |-> 0], [k |-> "halt"]>>])
+                     [i \in DOMAIN Progs[p].inits |-> [k |-> "docall", fn |-> Progs[p].inits[i], nargs |-> 0, spread |-> FALSE, line |-> 0, want |-> -1]] \o
+                     <<[k |-> "docall", fn |-> Progs[p].main, nargs |-> 0, spread |-> FALSE, line |-> 0, want |-> -1], [k |-> "halt"]>>])
       [] it.k = "halt" -> Ret([S EXCEPT !.ctl = <<>>, !.status = [s |-> "done"]])
       [] it.k = "stmt" -> Ret(ExecStmt(S, it.n, rest))
       [] it.k = "expr" -> Ret(EvalExpr(S, it.n, rest))
@@ -362,7 +367,7 @@ Steps(S) ==
                    ELSE [S EXCEPT !.vals = <<r>> \o DropN(@, 1), !.ctl = rest])
       \* ---- calls
       [] it.k = "docall" ->
-            Ret(EnterCall([S EXCEPT !.vals = DropN(@, it.nargs)], it.fn, TopN(S.vals, it.nargs), it.spread, it.line, rest))
+            Ret(EnterCallW([S EXCEPT !.vals = DropN(@, it.nargs)], it.fn, TopN(S.vals, it.nargs), it.spread, it.line, rest, it.want))
       [] it.k = "docallv" ->
             LET fv == S.vals[it.nargs + 1]
                 args == TopN(S.vals, it.nargs)
@@ -382,12 +387,14 @@ Steps(S) ==
             Ret(IF v1.t # "ptr" \/ v1.id = 0 THEN PanicState([S EXCEPT !.ctl = rest], "nil pointer dereference", it.line)
                 ELSE [S EXCEPT !.vals = <<BoundV(S.heap[v1.id].sty \o "." \o it.m, v1)>> \o DropN(@, 1), !.ctl = rest])
       [] it.k = "callend" ->      \* the body ended without a return statement
-            Ret([S EXCEPT !.scopes = it.scopes, !.ctl = rest])
+            Ret(IF it.want > 0 THEN PanicState(S, "incorrect returns", it.line)
+                ELSE [S EXCEPT !.scopes = it.scopes, !.ctl = rest])
       [] it.k = "doreturn" ->
             LET c2 == DropUntil(rest, {"callend"})
                 ce == Head(c2)
                 res == TopN(S.vals, it.n)
-            IN Ret([S EXCEPT !.vals = PushAll(KeepLast(S.vals, ce.vbase), res), !.scopes = ce.scopes, !.ctl = Tail(c2)])
+            IN Ret(IF ce.want > it.n THEN PanicState([S EXCEPT !.ctl = c2], "incorrect returns", ce.line)
+                   ELSE [S EXCEPT !.vals = PushAll(KeepLast(S.vals, ce.vbase), res), !.scopes = ce.scopes, !.ctl = Tail(c2)])
       \* ---- containers
       [] it.k = "doindex" ->
             LET i == IntOf(v1) IN
